@@ -20,7 +20,7 @@ from harness import core
 from harness import pandora_util as pu
 from harness.props.c01 import expected_trace_py
 
-GEN = ["gen_tables", "gen_msconst"]
+GEN = ["gen_tables", "gen_msconst", "gen_block_loops"]
 EXTRACT_FILES = ["X15"]
 DRIVERS = ["x15"]
 RULE = ("random pandora.run executions: sad, window 3/5, images 12..30 x 14..36 (mono, 2-band, with/without masks with "
@@ -44,7 +44,8 @@ ASSUMES = [
     "theorems on disparity_range assume an odd window (the matching-cost schema enforces it) not larger than the coarse "
     "map; a valid-flagged pixel whose disparity is NaN counts as invalid (invalid_ind of the code)",
 ]
-TRUSTED = ["cst.PANDORA_MSK_PIXEL_INVALID is read from the imported package and given to the model as data"]
+TRUSTED = ["cst.PANDORA_MSK_PIXEL_INVALID is read from the imported package and given to the model as data",
+           "Gen/BlockLoops.v produced by translator/gen_block_loops.py (ast transliteration of the double block loop: split expressions, statements on the running offsets where they stand, slice bounds, arrays resolved to np.zeros / np.full_like / np.copy / sliding_window view / parameter expression; fail closed) and its reading as a program by Lib/BlockSkeleton.v exec (total arrays, slice writes neither clamped nor shape-checked)"]
 
 
 # ---------------------------------------------------------------- case generation
@@ -639,4 +640,8 @@ def run(ctx):
                 ctx.mismatch("zoom_index_map", {"n": n_, "sf": sf_}, got, want)
     ctx.gen_obligations = ["run_tbl_wf Gen.Tables.run_table = true (vm_compute), shared with C01",
                            "Gen.MsConst: PANDORA_MSK_PIXEL_INVALID = 963 (bits 0,1,6,7,8,9) and 1 <= chunk size of "
-                           "disparity_range (C15_constants_match); class defaults used as regenerated"]
+                           "disparity_range (C15_constants_match); class defaults used as regenerated",
+                           "skeleton_wf Gen.BlockLoops.disparity_range = true /\\ ms_skeleton_ok (offsets from int((W-1)/2) of the "
+                           "sliding_window's own W, two distinct np.full_like outputs receiving nanmin - marge / nanmax + marge of the "
+                           "inner chunk) /\\ sk_B = Gen.MsConst.ms_chunk_size (C15_block_loop_skeleton, vm_compute on the skeleton "
+                           "translator/gen_block_loops.py reads in fixed_zoom_pyramid.py with ast; fail closed)"]
